@@ -122,6 +122,7 @@ class Recorder:
         result = harness.run_monitored(path, monitor)
         self.count('programs_run')
         self.count('monitor_evaluations', monitor.checks)
+        self.count('distinct_operand_cases', len(monitor.case_keys))
         self.count('applications_monitored', monitor.applications)
         self.count('variable_cells_compared', monitor.cells_compared)
         self.count('unspecified_cases_skipped', monitor.skipped_unspecified)
